@@ -229,11 +229,17 @@ func buildPregel(r *lib.Rng, z *zoo) (*object, error) {
 	if len(cbPar) > 2 {
 		cbPar = cbPar[:2]
 	}
+	shared := []compose.Option{
+		compose.WithLambdaOption(lopt{Val: "S"}).DesignateNode("a", par[0]),
+		compose.WithCallbacks(sharedHandler("so")),
+		compose.WithCallbacks(sharedHandler("sd")).DesignateNode(par[0]),
+	}
 	return &object{
 		kind: "pregel", shape: []string{fmt.Sprintf("width:%d", w), fmt.Sprintf("failing:%v", failing)},
 		nIn: len(lims), paras: allParas,
 		optSet: []int{0, optLambdaDesignated, optLambdaGlobal, optCbGlobal, optCbThree | optCbDesignated, optMaxSteps,
-			optMaxSteps | optCbGlobal, optCtxHandlers, optCtxHandlers | optCbDesignated | optLambdaDesignated},
+			optMaxSteps | optCbGlobal, optCtxHandlers, optCtxHandlers | optCbDesignated | optLambdaDesignated,
+			optShared, optShared | optLambdaDesignated | optCbGlobal, optShared | optMaxSteps},
 		baseCtx: sharedCtx,
 		call: func(ctx context.Context, rc *callRec, sp spec) string {
 			in := V{ID: rc.tag, Lim: lims[sp.In%len(lims)], H: fmt.Sprintf("in%d", sp.In)}
@@ -241,7 +247,7 @@ func buildPregel(r *lib.Rng, z *zoo) (*object, error) {
 			if sp.Opt&optMaxSteps != 0 {
 				opts = append(opts, compose.WithRuntimeMaxSteps(5))
 			}
-			return runPara[V, V](ctx, run, sp.Para, in, codecV, opts)
+			return runPara[V, V](ctx, run, sp.Para, in, codecV, withShared(sp.Opt, shared, opts))
 		},
 	}, nil
 }
@@ -348,15 +354,20 @@ func buildDag(r *lib.Rng, z *zoo) (*object, error) {
 	if len(all) > 1 {
 		cbPar = append(cbPar, all[1])
 	}
+	shared := []compose.Option{
+		compose.WithLambdaOption(lopt{Val: "S"}).DesignateNode(all[0]),
+		compose.WithLambdaOption(lopt{Val: "SG"}),
+		compose.WithCallbacks(sharedHandler("sd")).DesignateNode(all[len(all)-1]),
+	}
 	return &object{
 		kind: "dag", shape: []string{"layers:" + fmt.Sprint(layers), "widths:" + strings.Join(widths, "-"), fmt.Sprintf("branch:%v", branchLayer >= 0)},
 		nIn: 4, paras: allParas,
-		optSet:  []int{0, optLambdaDesignated, optLambdaGlobal, optCbGlobal, optCbThree | optCbDesignated, optCtxHandlers | optCbDesignated, optCbThree | optLambdaGlobal},
+		optSet:  []int{0, optLambdaDesignated, optLambdaGlobal, optCbGlobal, optCbThree | optCbDesignated, optCtxHandlers | optCbDesignated, optCbThree | optLambdaGlobal, optShared, optShared | optLambdaDesignated | optCbGlobal},
 		baseCtx: sharedCtx,
 		call: func(ctx context.Context, rc *callRec, sp spec) string {
 			in := map[string]any{"id": rc.tag, "x": strings.Repeat("x", sp.In+1)}
 			opts := append(lambdaOpts(rc, sp.Opt, des...), cbOptions(rc, sp.Opt, cbPar)...)
-			return runPara[map[string]any, map[string]any](ctx, run, sp.Para, in, codecM, opts)
+			return runPara[map[string]any, map[string]any](ctx, run, sp.Para, in, codecM, withShared(sp.Opt, shared, opts))
 		},
 	}, nil
 }
@@ -429,16 +440,20 @@ func buildWorkflow(r *lib.Rng, z *zoo) (*object, error) {
 	if err != nil {
 		return nil, err
 	}
+	shared := []compose.Option{
+		compose.WithLambdaOption(lopt{Val: "S"}).DesignateNode("l", "m"),
+		compose.WithCallbacks(sharedHandler("so")),
+	}
 	cd := codec[WIn, WOut]{chunkIn: oneChunk[WIn], concatOut: lastOf[WOut], render: func(o WOut) string { return fmt.Sprintf("WOut{%s|%s|%s}", o.ID, o.P, o.Q) }}
 	return &object{
 		kind: "workflow", shape: []string{"wf:mapped"},
 		nIn: 4, paras: allParas,
-		optSet:  []int{0, optLambdaDesignated, optLambdaGlobal, optCbGlobal, optCbThree | optCbDesignated, optCtxHandlers},
+		optSet:  []int{0, optLambdaDesignated, optLambdaGlobal, optCbGlobal, optCbThree | optCbDesignated, optCtxHandlers, optShared, optShared | optLambdaGlobal | optCbDesignated},
 		baseCtx: sharedCtx,
 		call: func(ctx context.Context, rc *callRec, sp spec) string {
 			in := WIn{ID: rc.tag, A: fmt.Sprintf("a%d", sp.In), B: fmt.Sprintf("b%d", sp.In*7)}
 			opts := append(lambdaOpts(rc, sp.Opt, "l", "m"), cbOptions(rc, sp.Opt, []string{"l", "r"})...)
-			return runPara[WIn, WOut](ctx, run, sp.Para, in, cd, opts)
+			return runPara[WIn, WOut](ctx, run, sp.Para, in, cd, withShared(sp.Opt, shared, opts))
 		},
 	}, nil
 }
